@@ -17,6 +17,28 @@ class HomePosition(PositionComponent):
     """Another location kept by the agent (components are keyed by their exact class: this is not the agent's position)."""
 
 
+class SlotAgent(Agent):
+    """An agent class that declares __slots__ (the idiom of the package's own classes): its instances have no __dict__."""
+    __slots__ = ()
+
+
+class OwnAttrAgent(Agent):
+    """An agent class keeping state of its own under everyday attribute names, on the class and on the instance."""
+    alive = False
+    active = False
+    index = 0
+
+    def __init__(self, *a, **k):
+        super().__init__(*a, **k)
+        self.x, self.y, self.z, self.pos, self.position = -1, -1, -1, None, None
+        self.env, self.world, self.owner, self.cell, self.removed, self.registered, self.pooled = None, None, None, None, True, False, False
+
+
+def agent_class(what):
+    parts = what.split("+") if isinstance(what, str) else ()
+    return SlotAgent if "slotted" in parts else OwnAttrAgent if "ownattrs" in parts else Agent
+
+
 def gen_extras(rng, n, coord):
     """What some agents bring along before they are placed: components of their own - among them a SUBCLASS of
     PositionComponent holding some other location - or being an environment themselves. coord(ax) draws a numerator."""
@@ -24,14 +46,20 @@ def gen_extras(rng, n, coord):
     if rng.random() < 0.3:
         for k in range(n):
             if rng.random() < 0.5:
-                extras.append({"k": k, "what": rng.choice(["home", "home", "note", "note+home", "home+note", "env", "env+home"]),
+                extras.append({"k": k, "what": rng.choice(["home", "home", "note", "note+home", "home+note", "env", "env+home", "slotted",
+                                                           "slotted+home", "ownattrs", "ownattrs+note"]),
                                "h": [coord(ax) for ax in range(3)]})
     return extras
 
 
 def make_agents(model, n, extras, ref, ctx):
     is_env = {ex["k"] % max(n, 1) for ex in extras if "env" in ex["what"].split("+")}
-    agents = [Environment(model, id=f"a{i}") if i in is_env else Agent(f"a{i}", model) for i in range(max(n, 1))]
+    kinds = {}
+    for ex in extras:
+        kinds.setdefault(ex["k"] % max(n, 1), ex["what"])
+    agents = [Environment(model, id=f"a{i}") if i in is_env else agent_class(kinds.get(i))(f"a{i}", model) for i in range(max(n, 1))]
+    if any(type(a_) in (SlotAgent, OwnAttrAgent) for a_ in agents):
+        ctx.probe("agent_class_slotted_or_with_own_attributes")
     if is_env:
         ctx.probe("agent_is_an_environment")
     for ex in extras:
